@@ -13,7 +13,9 @@ from vlib.common import Run, rng_for, hexs
 PROP = "C08"
 RULE = ("case = (worker loop, peer in {127.0.0.1, ::1, 10.9.8.7, unix}, forwarded_allow_ips, proxy_allow_ips, "
         "proxy_protocol, forwarder_headers, secure_scheme_headers, header_map in {drop, refuse}, PROXY line or not, 1-3 "
-        "requests with header sets built from hyphen/underscore/case spelling variants carrying unique value tokens); "
+        "requests with header sets built from hyphen/underscore/case spelling variants carrying unique value tokens, "
+        "optionally a second PROXY line in front of the 2nd/3rd request; forwarded_allow_ips given as a setting or - in "
+        "shards of their own - only through the FORWARDED_ALLOW_IPS environment variable, empty included); "
         "every case is non-trivial; distinct = sha1(case)")
 
 PEERS = {
@@ -31,6 +33,13 @@ ALLOW = ["127.0.0.1,::1", "*", "10.9.8.7", ""]
 FWD_HEADERS = ["SCRIPT_NAME,PATH_INFO", "*", "", "X_CUSTOM,REMOTE_USER"]
 SECURE = [None, {"X-SCHEME": "secure"}, {}]
 DEFAULT_SECURE = {"X-FORWARDED-PROTOCOL": "ssl", "X-FORWARDED-PROTO": "https", "X-FORWARDED-SSL": "on"}
+# what a client behind a TCP-mode front-end may write itself after its first request: addresses no opening line declares
+MID_DECLARED = [["TCP4", "6.6.6.6", "10.2.2.2", 6666, 80], ["TCP6", "2001:db8::66", "::1", 6667, 443],
+                ["TCP4", "127.0.0.1", "127.0.0.1", 6668, 80]]
+# the FORWARDED_ALLOW_IPS environment variable as the only source of forwarded_allow_ips (None = not defined: documented
+# default 127.0.0.1,::1; defined but empty = an empty list: no TCP peer is believed)
+ENV_ROUTES = ["", None, "10.9.8.7", "", "*", ""]
+ENV_DEFAULT = "127.0.0.1,::1"
 
 BASES = ["X-Forwarded-Proto", "X-Forwarded-For", "X-Forwarded-Ssl", "X-Forwarded-Protocol", "Script-Name",
          "Path-Info", "Remote-User", "X-Custom", "X-Scheme", "X-Real-Ip", "Remote-Addr", "X-A-B"]
@@ -87,6 +96,21 @@ def make_case(rng):
     case["declared"] = rng.choice([["TCP4", "1.2.3.4", "5.6.7.8", 1111, 80], ["TCP6", "2001:db8::1", "::1", 2222, 443],
                                    ["TCP4", "127.0.0.1", "5.6.7.8", 3333, 80], ["TCP4", "10.9.8.7", "10.0.0.1", 4444, 8080],
                                    ["TCP6", "::1", "::1", 5555, 443]])
+    # a(nother) PROXY line in the middle of the connection, in front of the second or third request
+    case["mid_proxy"] = None
+    if n > 1 and rng.random() < 0.25:
+        case["mid_proxy"] = {"at": rng.randrange(1, n), "declared": rng.choice(MID_DECLARED)}
+    return case
+
+
+def to_env_route(rng, case, value):
+    """The same case with forwarded_allow_ips coming from the process environment only (the shard process was started with / set
+    FORWARDED_ALLOW_IPS = value before gunicorn was imported); mostly peers the documented default would believe."""
+    case["fwd_route"] = "env"
+    case["fwd_env"] = value
+    case["fwd_allow"] = ENV_DEFAULT if value is None else value
+    if rng.random() < 0.6:
+        case["peer"] = rng.choice(["lo4", "lo6", "lo4", "unix"])
     return case
 
 
@@ -94,6 +118,8 @@ def cfgset(case):
     c = {"keepalive": 2, "forwarded_allow_ips": case["fwd_allow"], "proxy_allow_ips": case["proxy_allow"],
          "proxy_protocol": case["proxy_protocol"], "forwarder_headers": case["fwd_headers"],
          "header_map": case["header_map"]}
+    if case.get("fwd_route") == "env":
+        del c["forwarded_allow_ips"]        # nothing sets it: the default applies, i.e. what the environment said at start
     if SECURE[case["secure"]] is not None:
         c["secure_scheme_headers"] = SECURE[case["secure"]]
     return c
@@ -104,7 +130,10 @@ def render(case):
     if case["proxy_line"]:
         d = case["declared"]
         out += ("PROXY %s %s %s %d %d\r\n" % tuple(d)).encode()
-    for r in case["reqs"]:
+    mid = case.get("mid_proxy")
+    for i, r in enumerate(case["reqs"]):
+        if mid and mid["at"] == i:
+            out += ("PROXY %s %s %s %d %d\r\n" % tuple(mid["declared"])).encode()
         out += ("GET %s HTTP/1.1\r\nHost: h\r\n" % r["path"]).encode()
         for n, v in r["headers"]:
             out += ("%s: %s\r\n" % (n, v)).encode()
@@ -117,6 +146,12 @@ def allowed(peer, allow):
         return True
     items = [x.strip() for x in allow.split(",") if x.strip()]
     return "*" in items or peer[0] in items
+
+
+def scheme_assertions(req, sec):
+    """[(header name as sent, scheme it asserts)] for the lines of one request that are secure-scheme headers (exact names, any
+    letter case; an underscore spelling is a different name)."""
+    return [(n, "https" if val == sec[n.upper()] else "http") for n, val in req["headers"] if n.upper() in sec]
 
 
 class Recorder:
@@ -142,13 +177,29 @@ def judge(case, envs, out):
                       "PROXY line from peer %r (proxy_protocol=%s, proxy_allow_ips=%r) but %d request(s) reached the "
                       "application" % (peer, case["proxy_protocol"], case["proxy_allow"], len(envs))))
         return v
+    # 2c. the same for a PROXY line in front of a later request: that request must not be served
+    mid = case.get("mid_proxy")
+    if mid and (not case["proxy_protocol"] or not trusted_proxy) and len(envs) > mid["at"]:
+        v.append(("proxy-line-served-untrusted/mid-connection",
+                  "PROXY line in front of request #%d from peer %r (proxy_protocol=%s, proxy_allow_ips=%r) but %d request(s) reached "
+                  "the application" % (mid["at"], peer, case["proxy_protocol"], case["proxy_allow"], len(envs))))
+    sec = SECURE[case["secure"]] if SECURE[case["secure"]] is not None else DEFAULT_SECURE
     for i, env in enumerate(envs):
         req = case["reqs"][i] if i < len(case["reqs"]) else None
         if req is None:
             v.append(("more-app-calls-than-requests", ""))
             break
-        # 3 / 2b. client address
-        if case["proxy_line"]:
+        # 3 / 2b. client address: what held for the first request of the connection holds for every request of it
+        redeclared = mid and i >= mid["at"] and env.get("REMOTE_ADDR") == mid["declared"][1] and \
+            (env.get("REMOTE_ADDR"), env.get("REMOTE_PORT")) != (envs[0].get("REMOTE_ADDR"), envs[0].get("REMOTE_PORT"))
+        if redeclared:
+            v.append(("proxy-address-redeclared-mid-connection",
+                      "request #%d arrived behind a PROXY line sent in the middle of the connection (%s) and was served with REMOTE_ADDR=%r "
+                      "REMOTE_PORT=%r; the first request of the connection had %r:%r (%s)" % (
+                          i, " ".join(str(x) for x in mid["declared"]), env.get("REMOTE_ADDR"), env.get("REMOTE_PORT"),
+                          envs[0].get("REMOTE_ADDR"), envs[0].get("REMOTE_PORT"),
+                          "declared by the opening PROXY line" if case["proxy_line"] else "the socket peer")))
+        elif case["proxy_line"]:
             d = case["declared"]
             if env.get("REMOTE_ADDR") != d[1] or env.get("REMOTE_PORT") != str(d[3]):
                 v.append(("proxy-address-lost/request-%d" % min(i, 1),
@@ -159,6 +210,14 @@ def judge(case, envs, out):
             if env.get("REMOTE_ADDR") != want_addr or (isinstance(peer, tuple) and env.get("REMOTE_PORT") != str(peer[1])):
                 v.append(("remote-addr-not-socket-peer", "request #%d: REMOTE_ADDR=%r REMOTE_PORT=%r, socket peer %r" % (
                     i, env.get("REMOTE_ADDR"), env.get("REMOTE_PORT"), peer)))
+        # 5. secure-scheme header lines of a trusted peer that contradict each other (two headers, or one header twice): whatever
+        # scheme such a request were served with, only some of the lines assert it
+        if trusted_fwd:
+            asserted = scheme_assertions(req, sec)
+            if len(set(s for _, s in asserted)) > 1:
+                v.append(("conflicting-scheme-headers-served",
+                          "request #%d from the trusted peer %r carries scheme headers that contradict each other %r and reached the "
+                          "application with wsgi.url_scheme=%r" % (i, peer, asserted, env.get("wsgi.url_scheme"))))
         # 1. scheme and script name from an untrusted peer
         if not trusted_fwd:
             if env.get("wsgi.url_scheme") != "http":
@@ -224,7 +283,47 @@ def run_case(run, e2, harnesses, case):
         run.count("untrusted_fwd_peer_served")
     if any("_" in n for r in case["reqs"] for n, _ in r["headers"]) and app.envs:
         run.count("underscore_headers_served")
+    mid = case.get("mid_proxy")
+    if mid and len(app.envs) >= mid["at"]:
+        # every request in front of the second PROXY line was served: the line was looked at
+        run.count("mid_connection_proxy_line_cases")
+        if len(app.envs) == mid["at"]:
+            run.count("mid_connection_proxy_line_refused")
+        if case["proxy_line"]:
+            run.count("mid_connection_proxy_line_after_opening_line")
+    if allowed(peer, case["fwd_allow"]):
+        sec = SECURE[case["secure"]] if SECURE[case["secure"]] is not None else DEFAULT_SECURE
+        for i, r in enumerate(case["reqs"][:len(app.envs) + 1]):
+            a = scheme_assertions(r, sec)
+            if len(set(s_ for _, s_ in a)) > 1 and i == len(app.envs) and not (mid and mid["at"] <= i) \
+                    and not any("_" in n_ for n_, _ in r["headers"]):
+                # (nothing else about this request asks for a refusal)
+                run.count("trusted_scheme_conflict_refused")
+                if any(len(set(s_ for n_, s_ in a if n_.upper() == n0.upper())) > 1 for n0, _ in a):
+                    run.count("trusted_scheme_conflict_same_header_twice_refused")
+            elif a and i < len(app.envs):
+                run.count("trusted_scheme_headers_agreeing_served")
+    if case.get("fwd_route") == "env":
+        run.count("fwd_allow_from_environment_cases")
+        if case["fwd_env"] == "" and app.envs:
+            run.count("fwd_allow_empty_in_environment_served")
+            if case["peer"] in ("lo4", "lo6"):
+                run.count("fwd_allow_empty_in_environment_loopback_peer_served")
     return v, out, app
+
+
+def environment_route(sh):
+    """forwarded_allow_ips through the FORWARDED_ALLOW_IPS environment variable only: the variable has to be in place when gunicorn's
+    configuration module is first imported (the documented default of the setting is computed from it), i.e. in a process that has not
+    imported gunicorn yet - a shard process at its start."""
+    import os
+    import sys
+    if "gunicorn.config" in sys.modules:
+        raise RuntimeError("gunicorn.config was imported before the FORWARDED_ALLOW_IPS route could be set up")
+    if sh["fwd_env"] is None:
+        os.environ.pop("FORWARDED_ALLOW_IPS", None)
+    else:
+        os.environ["FORWARDED_ALLOW_IPS"] = sh["fwd_env"]
 
 
 LIVE_ENV_APP = '''
@@ -299,6 +398,8 @@ def live_scenario(run, wc):
 
 
 def shard(sh):
+    if sh.get("kind") == "env":
+        environment_route(sh)
     from vlib import e2_worker as e2
     run = Run(PROP, sh.get("tier", "quick"), sh["seed"], "exploration", RULE)
     if sh.get("kind") == "live":
@@ -321,6 +422,8 @@ def shard(sh):
             if run.enough():
                 break
             case = make_case(rng)
+            if sh.get("kind") == "env":
+                case = to_env_route(rng, case, sh["fwd_env"])
             run.case(common.sha12(case))
             v, out, app = run_case(run, e2, hs, case)
             for mech, summary in v:
@@ -340,16 +443,24 @@ def main(tier, seed):
     run = Run(PROP, tier, seed, "exploration", RULE)
     run.require("app_calls", "second_or_later_request_served", "proxy_connection_served", "proxy_connection_second_request",
                 "proxy_connection_refused", "untrusted_fwd_peer_served", "underscore_headers_served", "live_reload_narrowing_checks",
-                "live_refused_reload_checks")
+                "live_refused_reload_checks", "mid_connection_proxy_line_cases", "mid_connection_proxy_line_refused",
+                "mid_connection_proxy_line_after_opening_line", "trusted_scheme_conflict_refused",
+                "trusted_scheme_conflict_same_header_twice_refused", "trusted_scheme_headers_agreeing_served",
+                "fwd_allow_from_environment_cases", "fwd_allow_empty_in_environment_loopback_peer_served")
     q = tier == "quick"
     shards = [{"n": 1200 if q else 15000, "sub": i, "seed": seed, "tier": tier} for i in range(32 if q else 64)]
+    # forwarded_allow_ips from the environment variable only (one value per process)
+    shards += [{"kind": "env", "fwd_env": val, "n": 400 if q else 4000, "sub": "env%d" % i, "seed": seed, "tier": tier}
+               for i, val in enumerate(ENV_ROUTES)]
     classes = ["sync", "gthread", "gevent", "eventlet"]
     shards = [{"kind": "live", "class": c, "seed": seed, "tier": tier, "sub": 0}
               for c in (classes if not q else [classes[seed % 4], classes[(seed + 2) % 4]])] + shards
     run.assumptions = [
         "listener is plain HTTP, process SCRIPT_NAME is empty: an untrusted peer must always see url_scheme=http, SCRIPT_NAME='' and PATH_INFO=path",
         "underscore names listed in forwarder_headers coming from a trusted peer are mapped regardless of header_map (documented) - not judged as ambiguous",
-        "what a trusted peer's headers do (https, conflicting scheme headers refused) is documented behaviour but outside the statement's 'only when'; not judged",
+        "a request of a trusted peer whose secure-scheme header lines contradict each other (two headers, or two lines of one header) must not reach the application: any scheme it were served with is asserted by only some of the lines (documented: refused). That agreeing lines of a trusted peer do set https is documented behaviour outside the statement's 'only when' and is not judged",
+        "a PROXY line is an opening line: what the first request of a connection was served with as client address (declared or socket peer) holds for every later request; a PROXY line in front of a later request must not change it (the unchanged server refuses that request)",
+        "FORWARDED_ALLOW_IPS in the environment is the documented default of forwarded_allow_ips: defined but empty = empty list (only unix-socket peers are believed), not defined = 127.0.0.1,::1",
         "peers are what the (fake) listener's accept() returns: IPv4/IPv6 tuples or '' for a unix socket",
     ]
     common.run_sharded(run, shards, timeout=900 if q else 7200)
@@ -357,9 +468,11 @@ def main(tier, seed):
 
 
 def replay(path):
-    from vlib import e2_worker as e2
     with open(path) as f:
         rec = json.load(f)
+    if rec["case"].get("fwd_route") == "env":
+        environment_route(rec["case"])
+    from vlib import e2_worker as e2
     run = Run(PROP, "quick", 0, "exploration", RULE)
     if "live" in rec["case"]:
         v, reason = live_scenario(run, rec["case"]["live"])
